@@ -7,4 +7,300 @@ theorem L_dvd (b : Nat) (h1 : 1 ≤ b) (h2 : b ≤ 255) : L % b = 0 := by
   have : ∀ b : Fin 256, 1 ≤ b.val → L % b.val = 0 := by decide +kernel
   exact this ⟨b, by omega⟩ h1
 
+/-! ## the player's view of one row -/
+
+/-- speed in force after the row's effect (effects.c `fx_s3m_speed`) -/
+def fxSpeed (fx : Fx) (sp : Nat) : Nat :=
+  match fx with
+  | .speed p => if p = 0 then sp else p
+  | _ => sp
+
+/-- tempo in force after the row's effect (effects.c `fx_s3m_bpm`) -/
+def fxBpm (fx : Fx) (b : Nat) : Nat :=
+  match fx with
+  | .tempo t => if t < 20 then 20 else t
+  | _ => b
+
+/-- number of ticks the player spends in a row -/
+def rowFrames (fx : Fx) (sp : Nat) : Nat := fxSpeed fx sp * (1 + fx.delayOf)
+
+/-- exact time the player spends in consecutive rows, starting with speed `sp`, tempo `b` -/
+def rowsTime : List Fx → Nat → Nat → Nat
+  | [], _, _ => 0
+  | fx :: rest, sp, b =>
+    rowFrames fx sp * tick (fxBpm fx b) + rowsTime rest (fxSpeed fx sp) (fxBpm fx b)
+
+def rowsSpeed : List Fx → Nat → Nat
+  | [], sp => sp
+  | fx :: rest, sp => rowsSpeed rest (fxSpeed fx sp)
+
+def rowsBpm : List Fx → Nat → Nat
+  | [], b => b
+  | fx :: rest, b => rowsBpm rest (fxBpm fx b)
+
+/-- well-formed effect parameters (the property's vocabulary: speed 1..31, tempo 32..255, delay 0..15) -/
+def Fx.WF : Fx → Prop
+  | .speed s => 1 ≤ s
+  | .tempo t => 20 ≤ t
+  | _ => True
+
+def Fx.isJump : Fx → Bool
+  | .jump _ => true
+  | _ => false
+
+theorem fxSpeed_pos (fx : Fx) (sp : Nat) (h : 1 ≤ sp) (hw : fx.WF) : 1 ≤ fxSpeed fx sp := by
+  cases fx <;> simp [fxSpeed, Fx.WF] at * <;> try omega
+  split <;> omega
+
+theorem fxBpm_ge (fx : Fx) (b : Nat) (h : 20 ≤ b) : 20 ≤ fxBpm fx b := by
+  cases fx <;> simp [fxBpm] <;> try omega
+  split <;> omega
+
+/-! ## the scan's accounting of one row -/
+
+/-- body of the row loop after the visit bookkeeping: effect, then `row_count++` -/
+def scanStep (fx : Fx) (st : ScanSt) : ScanSt :=
+  let st2 := applyFx fx st
+  { st2 with rowCount := st2.rowCount + 1 }
+
+theorem scanStep_speed (fx : Fx) (st : ScanSt) : (scanStep fx st).speed = fxSpeed fx st.speed := by
+  cases fx <;> simp [scanStep, applyFx, fxSpeed]
+  split <;> simp_all
+
+theorem scanStep_bpm (fx : Fx) (st : ScanSt) (hw : fx.WF) : (scanStep fx st).bpm = fxBpm fx st.bpm := by
+  cases fx <;> simp [scanStep, applyFx, fxBpm, Fx.WF] at *
+  · split <;> simp_all
+  · omega
+
+/-- **Accounting identity.** Whatever the row's effect, the scan's bookkeeping
+(`row_count`, `frame_count`, `time`) advances the exact row start time by the
+time the player spends in the row: `speed' · (1 + delay)` ticks at the tempo in
+force after the effect. -/
+theorem scanStep_rowStart (fx : Fx) (st : ScanSt) (hw : fx.WF) :
+    (scanStep fx st).rowStart = st.rowStart + rowFrames fx st.speed * tick (fxBpm fx st.bpm) := by
+  cases fx with
+  | none => simp [scanStep, applyFx, ScanSt.rowStart, rowFrames, fxSpeed, fxBpm, Fx.delayOf] <;> grind
+  | jump j => simp [scanStep, applyFx, ScanSt.rowStart, rowFrames, fxSpeed, fxBpm, Fx.delayOf] <;> grind
+  | delay d => simp [scanStep, applyFx, ScanSt.rowStart, rowFrames, fxSpeed, fxBpm, Fx.delayOf] <;> grind
+  | speed s =>
+    simp only [Fx.WF] at hw
+    have hs : s ≠ 0 := by omega
+    simp [scanStep, applyFx, ScanSt.rowStart, rowFrames, fxSpeed, fxBpm, Fx.delayOf, hs] <;> grind
+  | tempo t =>
+    simp only [Fx.WF] at hw
+    have ht : ¬ t < 20 := by omega
+    simp [scanStep, applyFx, ScanSt.rowStart, rowFrames, fxSpeed, fxBpm, Fx.delayOf, ht] <;> grind
+
+/-! ## `scan_cnt` -/
+
+
+theorem getD_set_ne {α} (l : List α) (i j : Nat) (a d : α) (h : i ≠ j) : (l.set i a).getD j d = l.getD j d := by
+  simp [List.getD_eq_getElem?_getD, h]
+
+theorem getD_set_eq {α} (l : List α) (i : Nat) (a d : α) (h : i < l.length) : (l.set i a).getD i d = a := by
+  simp [List.getD_eq_getElem?_getD, h]
+
+theorem cntAt_cntInc_ne (c : List (List Nat)) (o r o' r' : Nat) (h : ¬ (o' = o ∧ r' = r)) :
+    cntAt (cntInc c o r) o' r' = cntAt c o' r' := by
+  unfold cntAt cntInc
+  by_cases ho : o = o'
+  · subst ho
+    by_cases hl : o < c.length
+    · rw [getD_set_eq _ _ _ _ hl]
+      have hr : r ≠ r' := by intro e; exact h ⟨rfl, e.symm⟩
+      rw [getD_set_ne _ _ _ _ _ hr]
+    · have : c.set o ((c.getD o []).set r (cntAt c o r + 1)) = c := by
+        apply List.set_eq_of_length_le; omega
+      rw [this]
+  · rw [getD_set_ne _ _ _ _ _ ho]
+
+theorem cntAt_cntInc_eq (c : List (List Nat)) (o r : Nat) (ho : o < c.length) (hr : r < (c.getD o []).length) :
+    cntAt (cntInc c o r) o r = cntAt c o r + 1 := by
+  unfold cntInc
+  show ((c.set o _).getD o []).getD r 0 = _
+  rw [getD_set_eq _ _ _ _ ho, getD_set_eq _ _ _ _ hr]
+
+theorem cntInc_length (c : List (List Nat)) (o r : Nat) : (cntInc c o r).length = c.length := by
+  simp [cntInc]
+
+theorem cntInc_row_length (c : List (List Nat)) (o r o' : Nat) :
+    ((cntInc c o r).getD o' []).length = (c.getD o' []).length := by
+  unfold cntInc
+  by_cases ho : o = o'
+  · subst ho
+    by_cases hl : o < c.length
+    · rw [getD_set_eq _ _ _ _ hl]; simp
+    · have : c.set o ((c.getD o []).set r (cntAt c o r + 1)) = c := by
+        apply List.set_eq_of_length_le; omega
+      rw [this]
+  · rw [getD_set_ne _ _ _ _ _ ho]
+
+/-! ## the row loop on fresh rows -/
+
+
+/-- one iteration of the row loop on a fresh row -/
+def visitStep (ord row : Nat) (fx : Fx) (st : ScanSt) : ScanSt :=
+  let st1 := { st with cnt := cntInc st.cnt ord row, osv := 0, anyValid := true }
+  let st2 := applyFx fx st1
+  { st2 with rowCount := st2.rowCount + 1,
+             trace := { ord := ord, row := row, speed := st2.speed, bpm := st2.bpm,
+                        delay := fx.delayOf, t0 := st.rowStart } :: st2.trace }
+
+theorem clamp_bpm_id (st : ScanSt) (h : 20 ≤ st.bpm) :
+    { st with bpm := if st.bpm < 20 then 20 else st.bpm } = st := by
+  have : (if st.bpm < 20 then 20 else st.bpm) = st.bpm := by split <;> omega
+  rw [this]
+
+theorem scanRows_cons_fresh (ord : Nat) (fx : Fx) (rest : List Fx) (row : Nat) (st : ScanSt)
+    (hb : 20 ≤ st.bpm) (hf : cntAt st.cnt ord row = 0) (hj : fx.isJump = false) :
+    scanRows ord (fx :: rest) row st = scanRows ord rest (row + 1) (visitStep ord row fx st) := by
+  have hc : (if st.bpm < 20 then 20 else st.bpm) = st.bpm := by split <;> omega
+  rw [scanRows]
+  simp only [hc, hf, ne_eq, not_true_eq_false, if_false]
+  cases fx <;> simp [Fx.isJump] at hj <;> (cases st; rfl)
+
+theorem scanRows_cons_jump (ord : Nat) (j : Nat) (rest : List Fx) (row : Nat) (st : ScanSt)
+    (hb : 20 ≤ st.bpm) (hf : cntAt st.cnt ord row = 0) :
+    scanRows ord (.jump j :: rest) row st = .done (visitStep ord row (.jump j) st) (some j) := by
+  have hc : (if st.bpm < 20 then 20 else st.bpm) = st.bpm := by split <;> omega
+  rw [scanRows]
+  simp only [hc, hf, ne_eq, not_true_eq_false, if_false]
+  cases st; rfl
+
+theorem applyFx_cnt (fx : Fx) (st : ScanSt) : (applyFx fx st).cnt = st.cnt := by
+  cases fx <;> simp [applyFx] ; split <;> rfl
+theorem applyFx_ctl (fx : Fx) (st : ScanSt) : (applyFx fx st).ctl = st.ctl := by
+  cases fx <;> simp [applyFx] ; split <;> rfl
+theorem applyFx_info (fx : Fx) (st : ScanSt) : (applyFx fx st).info = st.info := by
+  cases fx <;> simp [applyFx] ; split <;> rfl
+theorem applyFx_startTime (fx : Fx) (st : ScanSt) : (applyFx fx st).startTime = st.startTime := by
+  cases fx <;> simp [applyFx] ; split <;> rfl
+theorem applyFx_trace (fx : Fx) (st : ScanSt) : (applyFx fx st).trace = st.trace := by
+  cases fx <;> simp [applyFx] ; split <;> rfl
+theorem applyFx_osv (fx : Fx) (st : ScanSt) : (applyFx fx st).osv = st.osv := by
+  cases fx <;> simp [applyFx] ; split <;> rfl
+theorem applyFx_anyValid (fx : Fx) (st : ScanSt) : (applyFx fx st).anyValid = st.anyValid := by
+  cases fx <;> simp [applyFx] ; split <;> rfl
+
+theorem visitStep_cnt (ord row fx st) : (visitStep ord row fx st).cnt = cntInc st.cnt ord row := by
+  simp [visitStep, applyFx_cnt]
+theorem visitStep_ctl (ord row fx st) : (visitStep ord row fx st).ctl = st.ctl := by
+  simp [visitStep, applyFx_ctl]
+theorem visitStep_info (ord row fx st) : (visitStep ord row fx st).info = st.info := by
+  simp [visitStep, applyFx_info]
+theorem visitStep_startTime (ord row fx st) : (visitStep ord row fx st).startTime = st.startTime := by
+  simp [visitStep, applyFx_startTime]
+theorem visitStep_osv (ord row fx st) : (visitStep ord row fx st).osv = 0 := by
+  simp [visitStep, applyFx_osv]
+theorem visitStep_anyValid (ord row fx st) : (visitStep ord row fx st).anyValid = true := by
+  simp [visitStep, applyFx_anyValid]
+
+def posOf (r : RowRec) : Nat × Nat := (r.ord, r.row)
+
+theorem visitStep_trace (ord row fx st) :
+    (visitStep ord row fx st).trace.map posOf = (ord, row) :: st.trace.map posOf := by
+  simp [visitStep, applyFx_trace, posOf]
+
+theorem visitStep_eq_scanStep (ord row fx st) :
+    (visitStep ord row fx st).rowStart = (scanStep fx st).rowStart ∧
+    (visitStep ord row fx st).speed = (scanStep fx st).speed ∧
+    (visitStep ord row fx st).bpm = (scanStep fx st).bpm := by
+  cases fx <;> simp [visitStep, scanStep, applyFx, ScanSt.rowStart] <;> (try split) <;> simp
+
+
+
+
+/-- positions `(ord,row), (ord,row+1), …` (`n` of them) -/
+def rowSeq (ord row : Nat) : Nat → List (Nat × Nat)
+  | 0 => []
+  | n + 1 => (ord, row) :: rowSeq ord (row + 1) n
+
+/-- what the row loop leaves behind after a jump-free stretch of fresh rows -/
+structure RowsDone (ord row : Nat) (fxs : List Fx) (st st' : ScanSt) : Prop where
+  rowStart : st'.rowStart = st.rowStart + rowsTime fxs st.speed st.bpm
+  speed : st'.speed = rowsSpeed fxs st.speed
+  bpm : st'.bpm = rowsBpm fxs st.bpm
+  ctl : st'.ctl = st.ctl
+  info : st'.info = st.info
+  startTime : st'.startTime = st.startTime
+  cntLen : st'.cnt.length = st.cnt.length
+  rowLen : ∀ o, (st'.cnt.getD o []).length = (st.cnt.getD o []).length
+  other : ∀ o r, (o ≠ ord ∨ r < row ∨ row + fxs.length ≤ r) → cntAt st'.cnt o r = cntAt st.cnt o r
+  visited : ∀ r, row ≤ r → r < row + fxs.length → cntAt st'.cnt ord r = 1
+  trace : st'.trace.map posOf = (rowSeq ord row fxs.length).reverse ++ st.trace.map posOf
+  valid : fxs ≠ [] → st'.anyValid = true ∧ st'.osv = 0
+  same : fxs = [] → st' = st
+
+theorem rowSeq_snoc (ord row n : Nat) : rowSeq ord row (n + 1) = rowSeq ord row n ++ [(ord, row + n)] := by
+  induction n generalizing row with
+  | zero => simp [rowSeq]
+  | succ n ih =>
+    rw [rowSeq, ih (row + 1), rowSeq]
+    simp; omega
+
+theorem scanRows_nojump (ord : Nat) : ∀ (fxs : List Fx) (row : Nat) (st : ScanSt),
+    (∀ fx ∈ fxs, fx.isJump = false ∧ fx.WF) → (∀ r, row ≤ r → cntAt st.cnt ord r = 0) → 20 ≤ st.bpm →
+    ord < st.cnt.length → row + fxs.length ≤ (st.cnt.getD ord []).length →
+    ∃ st', scanRows ord fxs row st = .done st' none ∧ RowsDone ord row fxs st st' := by
+  intro fxs
+  induction fxs with
+  | nil =>
+    intro row st _ _ _ _ _
+    refine ⟨st, by simp [scanRows], ?_⟩
+    constructor <;> simp [rowsTime, rowsSpeed, rowsBpm, rowSeq]
+    intro r h1 h2; omega
+  | cons fx rest ih =>
+    intro row st hfx hfresh hb hlen hrl
+    rw [List.length_cons] at hrl
+    have hfx0 := hfx fx (by simp)
+    have hf0 : cntAt st.cnt ord row = 0 := hfresh row (Nat.le_refl _)
+    rw [scanRows_cons_fresh ord fx rest row st hb hf0 hfx0.1]
+    obtain ⟨hrs, hsp, hbp⟩ := visitStep_eq_scanStep ord row fx st
+    have hsp' : (visitStep ord row fx st).speed = fxSpeed fx st.speed := by rw [hsp, scanStep_speed]
+    have hbp' : (visitStep ord row fx st).bpm = fxBpm fx st.bpm := by rw [hbp, scanStep_bpm _ _ hfx0.2]
+    have hrs' : (visitStep ord row fx st).rowStart = st.rowStart + rowFrames fx st.speed * tick (fxBpm fx st.bpm) := by
+      rw [hrs, scanStep_rowStart _ _ hfx0.2]
+    have hlen' : ord < (visitStep ord row fx st).cnt.length := by
+      rw [visitStep_cnt, cntInc_length]; exact hlen
+    have hrl' : row + 1 + rest.length ≤ ((visitStep ord row fx st).cnt.getD ord []).length := by
+      rw [visitStep_cnt, cntInc_row_length]; omega
+    have hfresh' : ∀ r, row + 1 ≤ r → cntAt (visitStep ord row fx st).cnt ord r = 0 := by
+      intro r hr
+      rw [visitStep_cnt, cntAt_cntInc_ne _ _ _ _ _ (by omega)]
+      exact hfresh r (by omega)
+    have hb' : 20 ≤ (visitStep ord row fx st).bpm := by rw [hbp']; exact fxBpm_ge _ _ hb
+    obtain ⟨st', he, hd⟩ := ih (row + 1) (visitStep ord row fx st)
+      (fun f hf => hfx f (by simp [hf])) hfresh' hb' hlen' hrl'
+    refine ⟨st', he, ?_⟩
+    have hrowlt : row < (st.cnt.getD ord []).length := by omega
+    constructor
+    · rw [hd.rowStart, hrs', hsp', hbp', rowsTime]; omega
+    · rw [hd.speed, hsp', rowsSpeed]
+    · rw [hd.bpm, hbp', rowsBpm]
+    · rw [hd.ctl, visitStep_ctl]
+    · rw [hd.info, visitStep_info]
+    · rw [hd.startTime, visitStep_startTime]
+    · rw [hd.cntLen, visitStep_cnt, cntInc_length]
+    · intro o; rw [hd.rowLen, visitStep_cnt, cntInc_row_length]
+    · intro o r h
+      rw [List.length_cons] at h
+      rw [hd.other o r (by omega), visitStep_cnt, cntAt_cntInc_ne]
+      omega
+    · intro r h1 h2
+      rw [List.length_cons] at h2
+      by_cases hr : r = row
+      · subst hr
+        rw [hd.other ord r (by omega), visitStep_cnt, cntAt_cntInc_eq _ _ _ hlen hrowlt, hf0]
+      · exact hd.visited r (by omega) (by omega)
+    · rw [hd.trace, visitStep_trace]
+      simp [rowSeq]
+    · intro _
+      by_cases hr : rest = []
+      · subst hr
+        rw [hd.same rfl]
+        exact ⟨visitStep_anyValid .., visitStep_osv ..⟩
+      · exact hd.valid hr
+    · intro h; simp at h
+
+
 end Xmp.LinFlow
